@@ -307,7 +307,7 @@ func (s *cliScen) walkStep() {
 			if g.chance(1, 4) {
 				r.cbGate(p, cgate{code: pick(g, []int{-32000, 5}), msg: "callback says no"})
 			} else if g.chance(1, 4) {
-				r.cbGate(p, cbFailure(pick(g, []string{"plain", "nan", "chan", "panic"})))
+				r.cbGate(p, cbFailure(pick(g, []string{"plain", "nan", "chan", "panic", "baddata"})))
 			} else {
 				r.cbGate(p, cgate{res: pick(g, []string{"true", `{"r":1}`, `"ok"`})})
 			}
